@@ -46,6 +46,17 @@ CHECKS = {
              'reduced alphabet (all code points except non-ASCII cased letters, of which ~28 '
              'representatives are kept) for the infix; logging stubbed; fetchers are in-memory stubs.',
         design='3 C01'),
+    'C02': dict(
+        text='16 statements covering the documented grammar are token lists with typed gaps; a rendering is chosen by solver '
+             'variables (filler of all optional gaps, of all required gaps, one special gap with its own filler - white space, '
+             'line breaks, comments -, letter case of the case-insensitive tokens, quote style, one CSS escape of an ordinary '
+             'name character in three styles). The canonical rendering must parse to the hand-written structure of the '
+             'statement; every rendering must parse to the same DOM as the canonical one (comments removed and counted, '
+             'separators kept); parseComments=False must remove exactly the comments, validate on/off must not change the '
+             'DOM; two statements in one sheet must give the concatenation of their DOMs.',
+        note='Finite-choice renderings: solver-driven enumeration (quick: uniform fillers x case x quote x escape, and every '
+             'gap x every filler; thorough: the full product). Trusted: z3, the SUMMARY structures and sem() in harness/c02.py.',
+        design='3 C02'),
     'C03': dict(
         text='Bounded symbolic model checking of serialise-then-parse on the real code: ~50 carrier sheets '
              'with one hole at each content position (strings, url(), hrefs, namespace URIs, attribute '
